@@ -22,25 +22,29 @@ from ..lib.impl import Raised, call
 LEVEL = "proof"
 CLAIM = dict(
     category="proof",
-    text="Proved on the pipeline skeleton for arbitrary stage callables: baseline -> zero for every diff option, any extra "
-    "baselines (threshold proved non-negative by construction) and both stage orders, given that each stage maps 0 to 0 "
-    "(baseline_zero, cleaning_filter_nonneg); the stages present are called once each in the documented order, swapped "
-    "when configured (stage_order), each on the output of the previous one (stage_inputs), the result being "
-    "model(restoration(balancing(cleaning(reduction(difference))))) (result_eq_composition); positive+negative=absolute, "
-    "positive-negative=plain; probe and baseline untouched whatever a stage does to its input; kind rule; integer images: "
-    "after the promotion the code performs (value / (2^bits - 1)) every difference option equals the exact integer "
-    "difference scaled, within [-1, 1] resp. [0, 1] - no wrap-around (diff_no_wrap); the cleaning filter is the running "
-    "maximum (from 0) of the extra baselines' reduced differences, non-negative, dominating each of them and attained, so "
-    "every extra baseline is cleaned to zero (cleaning_filter_is_running_max, extra_baseline_cleaned_zero); the stock "
-    "reductions are modelled with their formulas (gray = 0.299 R + 0.587 G + 0.114 B in that order, negative-key, channel "
-    "selections; reduction_semantics) and tied numerically (1e-5, cv2 float32) through the real analysis. The skeleton is "
-    "tied to the code by running the real class with instrumented real stage objects against the model (exact, dyadic "
-    "float images); the promotion statement is tied by comparing the real analysis on uint8 / uint16 images with the model's "
-    "exact rationals (float round-off measured, < 1e-12 required). skimage.compare_images, TVD, cv2 gray reduction are "
-    "outside the model: observed by the oracle (baseline -> 0 exactly, no wrap-around, 0-preservation of the stock stages).",
-    note="stage objects are parameters of the model; dtype promotion and library numerics observed only",
-    technique="Lean 4 proof (list induction, case analysis over configurations, ordered-field arithmetic) + differential "
-    "correspondence with instrumented stages + property oracle",
+    text="Model: skeleton of ConcentrationAnalysis as (i) a functional pipeline over arbitrary stage callables, (ii) a state machine "
+    "(constructor with extra baselines -> any number of update(base=...) -> calls) and (iii) the call on BUFFERS (cell 0 the "
+    "caller's probe, cell 1 the stored baseline; deep copy; the difference is a new array or, for option plain without baseline, "
+    "the copy's array; every stage may overwrite the buffer it is handed). Proved: baseline -> zero for every diff option, any "
+    "extra baselines (threshold non-negative by construction, per channel) and both orders, given each stage maps 0 to 0, at "
+    "construction (baseline_zero) and after any sequence of updates (baseline_zero_after_updates, update_replaces_baseline_only); "
+    "the stages present are called once each in the documented order, swapped when configured (stage_order), each on the output "
+    "of the previous one (stage_inputs), result = model(restoration(balancing(cleaning(reduction(difference))))) "
+    "(result_eq_composition); positive+negative=absolute, positive-negative=plain; on buffers, whatever the stages write, the "
+    "caller's probe and the stored baseline are unchanged and the returned array holds the value of the functional "
+    "specification (probe_unchanged) - with a witness that this fails without the deep copy; integer images: after the promotion "
+    "the code performs every difference equals the exact scaled integer difference, no wrap-around (diff_no_wrap); the cleaning "
+    "filter has the shape of the reduced signal and is the running maximum from 0 of the extra baselines' reduced differences "
+    "(cleaning_filter_is_running_max, extra_baseline_cleaned_zero); formulas of the stock reductions (reduction_semantics). "
+    "call_eq, call_eq_callSt and scalar_kind_rule are definitional unfoldings (the kind rule's content is that it is applied to "
+    "the final array). Tie: the real class with instrumented real stage objects (well-behaved or input-overwriting), 0-3 extra "
+    "baselines incl. multi-channel signals, 0-2 updates, against the model: stage inputs, result class, result array, result on "
+    "buffers, probe after the call, stored baseline after the call - exact on dyadic float64 images; exact-rational ties for "
+    "promotion (uint8/uint16) and the stock reductions (1e-5). OBSERVED ONLY (oracle): result metadata = probe metadata (no "
+    "theorem), float32 inputs, TVD / compare_images / cv2 internals, 0-preservation of TVD, update(mask=...) (unused by this class).",
+    note="stage objects are parameters of the model; metadata of the result, library numerics and float32 are observed only",
+    technique="Lean 4 proof (list induction, state-machine and buffer invariants, case analysis over configurations, ordered-field "
+    "arithmetic) + differential correspondence with instrumented stages + exact-rational numeric ties + property oracle",
 )
 
 OPTS = ["positive", "negative", "absolute", "plain"]
@@ -161,25 +165,38 @@ def build(d, cfg, base, log, scribble=False, real=None):
 
 
 def correspondence(ctx, d):
+    """constructor (+ extra baselines, also with multi-channel signals) -> 0..2 update(base=...) -> call, with well-behaved
+    or input-overwriting stage objects; compared: recorded stage inputs, result class, result array, the result computed on
+    buffers, the caller's probe after the call, the stored baseline after the call"""
     lines, impl = [], []
     for _ in range(ctx.pick(1500, 12000)):
         kind = ctx.rng.choice(["ScalarImage", "OpticalImage", "OpticalImage", "Image"])
         shape = (ctx.rng.randint(1, 3), ctx.rng.randint(1, 4))
         cfg = rand_config(ctx, kind, late=pick_late(ctx, kind))
         has_base = ctx.rng.random() < 0.85
-        scalar_signal = kind == "ScalarImage" or cfg["reduction"] is not None
-        n_extra = ctx.rng.randint(0, 3) if (has_base and scalar_signal and ctx.rng.random() < 0.6) else 0
+        n_extra = ctx.rng.randint(0, 3) if (has_base and ctx.rng.random() < 0.6) else 0
+        n_upd = ctx.rng.randint(1, 2) if ctx.rng.random() < 0.35 else 0
+        scribble = ctx.rng.random() < 0.4
         base = rand_image(ctx, d, kind, shape)
         extras = [rand_image(ctx, d, kind, shape) for _ in range(n_extra)]
-        probe = rand_image(ctx, d, kind, shape) if ctx.rng.random() < 0.9 else base.copy()
+        updates = [rand_image(ctx, d, kind, shape) for _ in range(n_upd)]
+        probe = rand_image(ctx, d, kind, shape) if ctx.rng.random() < 0.9 else (updates[-1] if updates else base).copy()
         log = []
-        an = build(d, cfg, ([base] + extras) if has_base else None, log)
+        an = build(d, cfg, ([base] + extras) if has_base else None, log, scribble=scribble)
         req = (f"call {cfg['opt']} {int(cfg['first'])} {kind} " + (show_arr(base.img) if has_base else "none")
-               + f" {n_extra} " + " ".join(show_arr(e.img) for e in extras) + " " + show_arr(probe.img) + " "
-               + " ".join(show_stage(cfg[k]) for k in ORDER))
+               + f" {n_extra} " + " ".join(show_arr(e.img) for e in extras) + f" {n_upd} " + " ".join(show_arr(u.img) for u in updates)
+               + " " + show_arr(probe.img) + f" {int(scribble)} " + " ".join(show_stage(cfg[k]) for k in ORDER))
         lines.append(" ".join(req.split()))
         if isinstance(an, Raised):
             impl.append(repr(an))
+            continue
+        r = None
+        for u in updates:
+            r = call(lambda: an.update(base=u))
+            if isinstance(r, Raised):
+                break
+        if isinstance(r, Raised):
+            impl.append(repr(r))
             continue
         del log[:]
         res = call(lambda: an(probe))
@@ -187,7 +204,9 @@ def correspondence(ctx, d):
             impl.append(repr(res))
             continue
         tr = ";".join(f"{n}={show_arr(a)}" for n, a in log if not n.startswith("out:"))
-        impl.append(f"{tr}|{type(res).__name__}|{show_arr(res.img)}")
+        stored = getattr(an, "base", None)
+        impl.append(f"{tr}|{type(res).__name__}|{show_arr(res.img)}|{show_arr(res.img)}|{show_arr(probe.img)}|"
+                    + (show_arr(stored.img) if stored is not None else "none"))
     ctx.correspond("pipeline", lines, impl)
 
 
@@ -255,7 +274,7 @@ def oracle(ctx, d):
                     if kind == "Image":
                         real["restoration"] = None  # TVD on 2-channel data: channel handling of skimage, not of interest
                     scalar_signal = kind == "ScalarImage" or red is not None
-                    n_extra = ctx.rng.randint(0, 3) if scalar_signal else 0
+                    n_extra = ctx.rng.randint(0, 3)
                     base = rand_image(ctx, d, kind, shape, dtype, dyadic=False)
                     extras = [rand_image(ctx, d, kind, shape, dtype, dyadic=False) for _ in range(n_extra)]
                     cfg = dict(opt=opt, first=ctx.rng.random() < 0.5, reduction=None, balancing=None, restoration=None, model=None)
@@ -267,6 +286,12 @@ def oracle(ctx, d):
                     if isinstance(an, Raised):
                         ctx.fail(f"C13:constructor-raises({type(an.exc).__name__},dtype={case['dtype']},kind={kind})", f"ConcentrationAnalysis(...) raises {an.exc!r}", case)
                         continue
+                    if ctx.rng.random() < 0.3:
+                        # the caller goes on working on the baseline image it passed: the analysis holds its own copy
+                        pristine = base.copy()
+                        base.img[...] = base.img.max()
+                        base = pristine
+                        case = dict(case, caller_modified_baseline_after_construction=True)
                     before = (base.img.copy(), meta_snapshot(base))
                     res = call(lambda: an(base))
                     if isinstance(res, Raised):
@@ -294,7 +319,7 @@ def oracle(ctx, d):
         cfg = rand_config(ctx, kind, late=pick_late(ctx, kind))
         scalar_signal = kind == "ScalarImage" or cfg["reduction"] is not None
         has_base = ctx.rng.random() < 0.85
-        n_extra = ctx.rng.randint(0, 3) if (has_base and scalar_signal) else 0
+        n_extra = ctx.rng.randint(0, 3) if has_base else 0
         scribble = ctx.rng.random() < 0.5
         base = rand_image(ctx, d, kind, shape, dtype, dyadic=False)
         extras = [rand_image(ctx, d, kind, shape, dtype, dyadic=False) for _ in range(n_extra)]
@@ -334,7 +359,7 @@ def oracle(ctx, d):
             # threshold as the constructor computed it: max over the reduced differences of the extra baselines
             red_outs = [a for n, a in ctor_log if n == "out:reduction"]
             sig = red_outs if cfg["reduction"] is not None else [ref_diff(cfg["opt"], to_float(e), b64) for e in extras]
-            thr = np.zeros(shape)
+            thr = np.zeros_like(np.asarray(sig[0], dtype=float))
             for s in sig:
                 thr = np.maximum(thr, s)
         prev = diff
@@ -408,6 +433,70 @@ def oracle(ctx, d):
                             if outs and (res.img.shape != outs[-1].shape or not np.array_equal(res.img, outs[-1])):
                                 ctx.fail("C13:result-is-not-last-stage-output", "the returned image does not hold the output of the last stage", case)
 
+    # --- O7 update(base=...) / update(mask=...): the state "fixed at construction / update" --------------------------
+    for rep in range(ctx.pick(120, 1200)):
+        kind = ctx.rng.choice(["ScalarImage", "OpticalImage", "Image"])
+        shape = (ctx.rng.randint(2, 7), ctx.rng.randint(2, 7))  # (TVD of skimage needs more than one row / column)
+        dt0, dt1 = ctx.rng.choice(dtypes), ctx.rng.choice(dtypes)
+        opt = ctx.rng.choice(OPTS)
+        real, red = zero_stock_stages(ctx, d, kind)
+        if kind == "Image":
+            real["restoration"] = None
+        n_extra = ctx.rng.randint(0, 2)
+        b0 = rand_image(ctx, d, kind, shape, dt0, dyadic=False)
+        extras = [rand_image(ctx, d, kind, shape, dt0, dyadic=False) for _ in range(n_extra)]
+        n_upd = ctx.rng.randint(1, 3)
+        news = [rand_image(ctx, d, kind, shape, dt1, dyadic=False) for _ in range(n_upd)]
+        cfg = dict(opt=opt, first=ctx.rng.random() < 0.5, reduction=None, balancing=None, restoration=None, model=None)
+        case = dict(opt=opt, kind=kind, shape=list(shape), dtype_at_construction=np.dtype(dt0).name, dtype_of_update=np.dtype(dt1).name,
+                    extras=n_extra, updates=n_upd, reduction=red, stages={k: type(v).__name__ for k, v in real.items() if v is not None})
+        ctx.count(("update", opt, kind, shape, np.dtype(dt0).name, np.dtype(dt1).name, n_extra, n_upd, red, rep))
+        log = []
+        an = build(d, cfg, [b0] + extras, log, real=real)
+        if isinstance(an, Raised):
+            ctx.fail(f"C13:constructor-raises({type(an.exc).__name__},dtype={case['dtype_at_construction']},kind={kind})", f"ConcentrationAnalysis(...) raises {an.exc!r}", case)
+            continue
+        bad = False
+        for nb in news:
+            keep = (nb.img.copy(), meta_snapshot(nb))
+            r = call(lambda: an.update(base=nb))
+            if isinstance(r, Raised):
+                ctx.fail(f"C13:update(base):raises-{type(r.exc).__name__}", f"analysis.update(base=image) raises {r.exc!r}", case)
+                bad = True
+                break
+            if ctx.rng.random() < 0.3:
+                call(lambda: an.update(mask=np.ones(shape, dtype=bool)))
+            if not np.array_equal(keep[0], nb.img) or meta_equal(keep[1], meta_snapshot(nb)):
+                ctx.fail("C13:update(base):modifies-argument", "update(base=image) modified the image it was given", case)
+        if bad:
+            # the state the failed update left behind still decides later calls: the new baseline must map to zero
+            pass
+        cur = news[-1] if not bad else nb
+        if not bad and ctx.rng.random() < 0.5:
+            # the caller goes on working on the image it passed: the analysis holds its own copy
+            pristine = cur.copy()
+            cur.img[...] = cur.img.max()
+            cur = pristine
+            case = dict(case, caller_modified_image_after_update=True)
+        res = call(lambda: an(cur))
+        if isinstance(res, Raised):
+            ctx.fail(f"C13:call-raises-after-update({type(res.exc).__name__},dtype={case['dtype_of_update']})", f"analysis(new baseline) raises {res.exc!r} after update", case)
+            continue
+        if not np.all(res.img == 0):
+            ctx.fail(f"C13:baseline-not-zero-after-update(dtype={case['dtype_of_update']})",
+                     f"after update(base=b) the analysis does not map b to zero: max |value| = {float(np.max(np.abs(res.img)))}",
+                     dict(case, observed_max=float(np.max(np.abs(res.img)))))
+        if not bad:
+            # and any probe is analysed against the NEW baseline
+            probe = rand_image(ctx, d, kind, shape, dt1, dyadic=False)
+            an2 = call(lambda: d.ConcentrationAnalysis(cur, **{"diff option": opt}))
+            an1 = call(lambda: d.ConcentrationAnalysis(b0, **{"diff option": opt}))
+            r1 = an1 if isinstance(an1, Raised) else call(lambda: (an1.update(base=cur), an1(probe))[1])
+            r2 = an2 if isinstance(an2, Raised) else call(lambda: an2(probe))
+            if isinstance(r1, Raised) or isinstance(r2, Raised) or r1.img.shape != r2.img.shape or not np.allclose(r1.img, r2.img, rtol=0, atol=1e-12):
+                ctx.fail(f"C13:update(base):differs-from-fresh-analysis(dtype={case['dtype_of_update']})",
+                         "an analysis updated to baseline b differs from a fresh analysis constructed with b", case)
+
     # --- O3 positive / negative / absolute / plain --------------------------------------------------------
     for rep in range(ctx.pick(400, 4000)):
         kind = ctx.rng.choice(["ScalarImage", "OpticalImage", "Image"])
@@ -463,8 +552,8 @@ def reduction_tie(ctx, d):
         n_extra = ctx.rng.randint(0, 2)
         extras = [rand_image(ctx, d, "OpticalImage", shape, hi=4) for _ in range(n_extra)]
         cfg = dict(opt=opt, first=True, reduction=red, balancing=None, restoration=None, model=None)
-        req = (f"call {opt} 1 OpticalImage {show_arr(base.img)} {n_extra} " + " ".join(show_arr(e.img) for e in extras) + " "
-               + show_arr(probe.img) + " " + " ".join(show_stage(cfg[k]) if cfg[k] is None or len(cfg[k]) > 1 else cfg[k][0] for k in ORDER))
+        req = (f"call {opt} 1 OpticalImage {show_arr(base.img)} {n_extra} " + " ".join(show_arr(e.img) for e in extras) + " 0 "
+               + show_arr(probe.img) + " 0 " + " ".join(show_stage(cfg[k]) if cfg[k] is None or len(cfg[k]) > 1 else cfg[k][0] for k in ORDER))
         lines.append(" ".join(req.split()))
         cases.append((cfg, base, extras, probe))
     got = ctx.model(lines)
@@ -556,6 +645,9 @@ def replay(data):
 
 def run(ctx):
     import darsia as d
+
+    _fail = ctx.fail
+    ctx.fail = lambda sig, what, rep: _fail(sig, what, dict(rep, verif_seed=ctx.seed, tier=ctx.tier))  # replays are reproducible
 
     ctx.prove("C13")
     correspondence(ctx, d)
